@@ -360,6 +360,9 @@ let () =
           oracle "C07" ("panic:" ^ kind) (Printf.sprintf "the implementation panicked during the operation after [%s]: %s" !last_op (String.concat " " rest));
           oracle "C08" ("panic:" ^ kind) (Printf.sprintf "the implementation panicked during the operation after [%s]: %s" !last_op (String.concat " " rest));
           diverged := true
+      | "obs" :: "collide" :: a :: b :: rest ->
+          let d = Printf.sprintf "components %s and %s of this history (%s) are different but Component.Hash() gives them the same 64-bit hash: the name-tree children map conflates them" a b (String.concat " vs " rest) in
+          oracle "C07" "component-hash-collision" d; oracle "C08" "component-hash-collision" d
       | ["quiescent"] -> quiescent := true; stat "quiescent_dumps"
       | ["end"] -> ()
       | [""] | [] -> ()
